@@ -40,11 +40,31 @@ def showOptHex : Option Bytes → String
   | none => "-"
   | some b => toHex b
 
+/-- `R<i>` / `W<n>` / `F` of an observed trace (the bytes of a write are not observed, only their number) -/
+def parseWEv (s : String) : Option WEv :=
+  match s.toList with
+  | ['F'] => some .flush
+  | 'R' :: rest => (String.ofList rest).toNat?.map .targetRecv
+  | 'W' :: rest => (String.ofList rest).toNat?.map (fun n => .write (List.replicate n 0))
+  | _ => none
+
+def showWEv : WEv → String
+  | .targetRecv i => s!"R{i}"
+  | .write b => s!"W{b.length}"
+  | .flush => "F"
+
+/-- cut `body` into chunks of the given sizes (`none` unless they add up to the body) -/
+def cutChunks (body : Bytes) : List Nat → Option (List Bytes)
+  | [] => if body = [] then some [] else none
+  | n :: rest => if n ≤ body.length then (cutChunks (body.drop n) rest).map (body.take n :: ·) else none
+
+def isListPrefix (a b : List Bytes) : Bool := a.length ≤ b.length && b.take a.length == a
+
 /-- `http <cs> <ss> <accept…> <content-type…> <rbp> <lockstep> <msgs…> <end>
-      => <status> <content-type|-> <body> <payloads…> <records…> <flush>` -/
+      => <status> <content-type|-> <body> <payloads…> <records…> <flush> <trace R<i>/W<n>/F…> <chunk sizes…>` -/
 def handleHTTP (i o : List String) : String :=
   match i, o with
-  | [_, cs, ss, acc, ct, rbp, _lock, msgs, e], [status, rct, body, payloads, recs, flush] =>
+  | [_, cs, ss, acc, ct, rbp, _lock, msgs, e], [status, rct, body, payloads, recs, flush, trace, chunks] =>
     match parseHexList acc, parseHexList ct, parseEnd e, status.toNat?, parseHex body, parseHexList payloads with
     | some acc, some ct, some e, some status, some body, some ps =>
       let cs := cs = "1"
@@ -71,6 +91,15 @@ def handleHTTP (i o : List String) : String :=
       else if status = 200 && ss && !cs && !(if rct = toHex sseMime then sseClean body else lineRest body = []) then
         "VIOL stray-bytes-after-records (the stream body does not end at a record boundary: something other than a framed record was written)"
       else if status = 200 && ss && !cs && flush ≠ "ok" then "VIOL not-flushed-per-message"
+      else if status = 200 && ss && !cs && (match (parseListStr trace).mapM parseWEv with
+          | some evs => !flushedBeforeRecv false evs
+          | none => true) then
+        s!"VIOL not-flushed-before-next-message trace={trace} (something written is still unflushed when the target is asked for the next message, or at the end of the stream)"
+      else if status = 200 && ss && !cs && (match cutChunks body ((parseListStr chunks).filterMap String.toNat?) with
+          | some cs => !(List.range (cs.length + 1)).all (fun j =>
+              isListPrefix (if rct = toHex sseMime then readSSEChunked (cs.take j) else readLinesChunked (cs.take j)) ps)
+          | none => false) then
+        "VIOL partial-record-surfaced (after some chunk the client held records that are not a prefix of the messages sent)"
       -- model = implementation
       else if status ≠ exp.status then s!"DIFF model=status:{exp.status}"
       else if (match exp.ct with | some c => rct != toHex c | none => rct != "-" && exp.body.isSome) then
@@ -78,6 +107,12 @@ def handleHTTP (i o : List String) : String :=
       else if (match exp.body with | some b => b != body | none => false) then s!"DIFF model=body:{showOptHex exp.body}"
       else if status = 200 && ss && !cs && (if isSSE then parseSSE body else splitLines body) ≠ ps then
         "DIFF model=parser (the model's record reader does not return the payloads)"
+      else if status = 200 && ss && !cs && (parseListStr trace) ≠ (streamTrace isSSE ps).map showWEv then
+        s!"DIFF model=trace:{(streamTrace isSSE ps).map showWEv} (write/flush events of the response loop)"
+      else if status = 200 && ss && !cs && (match cutChunks body ((parseListStr chunks).filterMap String.toNat?) with
+          | some cs => (if isSSE then readSSEChunked cs else readLinesChunked cs) ≠ ps
+          | none => true) then
+        "DIFF model=chunked-reader (the chunked reader fed the client's chunks does not return the payloads)"
       else
         let nt := if (status = 200 && ss && msgsL ≠ []) || sseReq then " nt" else ""
         let br :=
